@@ -1,8 +1,10 @@
 """C07 — line-search steps honour the acceptance conditions they advertise (DESIGN.md §4 C07).
 
 Three independent mechanisms (CONVENTIONS.md):
-  G  `translate()` re-generates lean/NanoVerif/Gen/LsPredicates.lean (has_armijo, has_wolfe, … , stpmin, stpmax) from the
-     current C++ text; the theorems of Props/C07.lean are stated over these generated definitions and re-checked.
+  G  `translate()` re-generates lean/NanoVerif/Gen/LsPredicates.lean (has_armijo, has_wolfe, … , stpmin, stpmax) and
+     lean/NanoVerif/Gen/LsStep.lean (lsearch_step_t::cubic / quadratic / secant / bisection / interpolate, enum interpolation_type) from the
+     current C++ text; the theorems of Props/C07.lean are stated over these generated definitions and re-checked; the formulas written
+     inside the model are proved to BE the generated ones (model_lstep_is_generated, rfl), the driver's Cfg uses the generated ones.
   C  oracle-replay correspondence: harness/c07.cpp logs every evaluation one call of `lsearchk_t::get` makes (no hook in
      /repo); the compiled Lean model replays the logged answers by position and must request the same trial steps,
      reach the same verdict and return the same step (`compare`).
@@ -39,7 +41,19 @@ OBLIGATIONS = [NS + t for t in [
     "quadratic_acceptance_intervals", "quadratic_minimizer_accepted_iff", "interpolation_exact_on_quadratics",
     "backtrack_succeeds_on_quadratic", "lemarechal_succeeds_on_quadratic", "lemarechal_quadratic_overshoot_exact_step",
     "fletcher_succeeds_on_quadratic", "fletcher_quadratic_overshoot_exact_step",
-    "morethuente_quadratic_overshoot_partial", "morethuente_quadratic_no_undershoot_partial", "cgdescent_succeeds_on_quadratic", "cgdescent_quadratic_overshoot_exact_step",
+    "morethuente_quadratic_overshoot_exact_step", "morethuente_quadratic_no_undershoot_two_evaluations",
+    "cgdescent_succeeds_on_quadratic", "cgdescent_quadratic_overshoot_exact_step",
+    # gap-closing round: More-Thuente on convex quadratics for EVERY t0 (extrapolation phase, dcstep cases 1-3, the tripling loop) and
+    # its building blocks; a kernel-checked undershooting run (replayed: corpus section 10)
+    "morethuente_succeeds_on_quadratic", "morethuente_undershoot_run", "morethuente_fails_beyond_stpmax",
+    "dcstep_case1", "dcstep_case2", "dcstep_case3_unbracketed", "mtBounds_unbracketed", "mtBounds_bracketed_stp",
+    "mtConverged_quad_iff", "mt_extrapolate", "mt_bracket", "mt_quad_run",
+    # the interpolation formulas re-translated from lstep.cpp (Gen/LsStep.lean)
+    "model_lstep_is_generated", "model_lstep_is_generated_sqrt", "generated_interpolation_contracts", "generated_cubic_exact",
+    "cubic_is_stationary_point_of_hermite_cubic", "quadratic_is_parabola_minimiser", "secant_is_root_of_linear_slope",
+    "bisection_is_midpoint",
+    # stpmin / stpmax / the clamp of the initial step
+    "stpmin_stpmax_values", "get_initial_step_clamped",
 ]]
 TRUSTED = [
     "Lean 4.33.0 kernel; Mathlib modules imported by Proofs/LSearch*.lean (Mathlib.Algebra.Order.Field.Basic, Tactic.Linarith, Tactic.Ring, "
@@ -48,7 +62,10 @@ TRUSTED = [
     "non-vacuity examples / the model witnesses over Q (in these the square root of lsearch_step_t::cubic is `ratSqrt`, exact on squares "
     "of rationals: the witnesses that reach `cubic` do so on quadratic data only, where the radicand is such a square)",
     "tools/props/c07_translate.py (C++ scalar expression -> Lean) for the generated predicates; the generated file "
-    "Gen/LsPredicates.lean is the only copy of has_armijo/has_wolfe/has_strong_wolfe/has_approx_*/has_descent/stpmin/stpmax",
+    "Gen/LsPredicates.lean is the only copy of has_armijo/has_wolfe/has_strong_wolfe/has_approx_*/has_descent/stpmin/stpmax; "
+    "Gen/LsStep.lean (same translator: lets, conditional operator, the switch with [[fallthrough]] of interpolate) holds the interpolation "
+    "formulas of lstep.cpp; Model/LSearch.lean keeps a second text of them (used inside dcstep / CG_DESCENT) which is kernel-checked to be "
+    "definitionally the generated one for every scalar type (model_lstep_is_generated, model_lstep_is_generated_sqrt)",
     "hand-written model NanoVerif/Model/LSearch.lean of lsearchk.cpp, lsearchk/*.cpp, solver/lstep.cpp; tied to the code by the "
     "oracle-replay correspondence (harness/c07.cpp on the real library vs the compiled Lean driver at Float)",
     "harness/c07.cpp (evaluation-logging function_t wrapper; trial steps read from the library's own log line through a hexfloat "
@@ -77,11 +94,15 @@ ASSUMPTIONS = [
     "success of backtracking within an explicit k iterations for every t0 and every interpolation function, success of CG_DESCENT "
     "for every t0 (given ro^K t1 >= t* for some K < max_iterations) and success of LeMarechal for every t0 (exact interpolation, "
     "explicit budget k + J + 3 of expansions and clamped interpolations), success of Fletcher for every t0 (exact interpolation, "
-    "c1 < 1/2, explicit budgets k of extrapolations and J of clamped zoom steps) are proved; for More-Thuente "
-    "every first trial that does not undershoot ((1 - c2) t* <= t1) is proved to succeed within two evaluations - at t1, at t*, or at "
-    "the minimiser (1 - c1) t* of the modified function - (`_partial`: the extrapolation phase from an undershooting first trial is "
-    "missing, and the preamble is assumed not to triple the step; when t* < stpmin the search now fails honestly at stpmin - "
-    "morethuente_at_stpmin_pre3b214f8_and_now - so the 'succeed' clause is false there even in exact arithmetic). In floating point they are checked by the oracle only, with the per-method parameters (safeguard, tau1, tau23, delta, "
+    "c1 < 1/2, explicit budgets k of extrapolations and J of clamped zoom steps) and success of More-Thuente for every t0 "
+    "(morethuente_succeeds_on_quadratic: c1 <= 1/2, c1 <= c2 < 1, stpmin <= t* <= stpmax, 4^k t1 >= (1 - c2) t*, max_iterations >= k + 2, at "
+    "most max_iterations + k + 2 evaluations; the undershooting extrapolation phase with the safeguards stp + 1.1 (stp - stx) / stp + 4 (stp - stx) "
+    "as coded, dcstep cases 1-3, the preamble's tripling loop; nothing is `_partial` any more) are proved; the refinements say where More-Thuente "
+    "stops when the first trial does not undershoot - at t1, at t*, or at the minimiser (1 - c1) t* of the modified function. The hypotheses "
+    "stpmin <= t* <= stpmax and c1 <= 1/2 are necessary (kernel-checked failing runs: morethuente_at_stpmin_pre3b214f8_and_now, "
+    "morethuente_fails_beyond_stpmax, quadratic_minimizer_accepted_iff), so the 'succeed' clause is false there even in exact arithmetic; the "
+    "interpolation contracts (exact on quadratics) are proved for the formulas re-translated from lstep.cpp, with std::sqrt idealised as an "
+    "exact root of the radicand (generated_interpolation_contracts). In floating point they are checked by the oracle only, with the per-method parameters (safeguard, tau1, tau23, delta, "
     "cgdescent::*) at their defaults since those are not part of the property's quantifier, and 'succeed' only when the search has a "
     "budget max_iterations >= 100 (default 128): with a smaller budget a search that exhausts its own iteration budget fails honestly "
     "(e.g. LeMarechal/Fletcher never enter their loop for max_iterations = 1); such failures are counted, not flagged",
@@ -90,7 +111,12 @@ ASSUMPTIONS = [
     "promise it elsewhere); the 'succeeds on convex quadratics' clause is demanded for t0 in [1e-3, 1e3] or non-finite only (the "
     "statement's range; t0 = 0, negative or denormal-size initial steps are generated for the other clauses)",
     "open known findings (KNOWN_FINDINGS.json, matched by key): CG_DESCENT success from its 'bracketing failed' exit (more than "
-    "max_iterations evaluations); honest failures on convex quadratics at the ends of the (c1,c2) domain (c1 >= 0.5, c2 <= 1e-6)",
+    "max_iterations evaluations); honest failures on convex quadratics at the ends of the (c1,c2) domain (c1 >= 0.5, c2 <= 1e-6). The "
+    "oracle gives the CG_DESCENT finding its key only when the run has the signature cgdescent_success_cases proves necessary (an evaluated "
+    "trial point with negative slope AND (more than max_iterations evaluations OR two evaluated steps within stpmin())); a violating success "
+    "without it is keyed .../within-budget or .../no-negative-slope and fails the check",
+    "the preamble of lsearchk_t::get is re-evaluated by the oracle from the logged evaluations: first trial at the clamped step "
+    "(get_initial_step_clamped: non-finite -> 1, < stpmin() -> stpmin(), > 1 -> 1), x0.3 after an invalid state, x3 while |f - f0| < epsilon1",
 ]
 RULE = ("per op one call of lsearchk_t::get: method x interpolation x max_iterations in {1..10000} x (c1,c2) over the domain (standard pairs, "
         "domain ends, nearly equal) x per-method parameters (defaults or random in their domains) x t0 in [1e-3,1e3] + {NaN, +-inf, 0, <0} x "
@@ -320,6 +346,17 @@ class Op:
         self.dkind = t.s()
         rest = t.rest()
         self.has_answers = "@" in rest
+        # the evaluations the implementation made, as logged by the harness after the `@`: (t, f, g.d, valid) in order
+        self.evals = None
+        if self.has_answers:
+            try:
+                a = Toks(" ".join(rest[rest.index("@") + 1:]) if isinstance(rest, list) else rest.split("@", 1)[1])
+                self.eps0 = a.f(); self.eps1 = a.f(); self.macheps = a.f()
+                a.f(); a.f(); a.int()
+                n = a.int()
+                self.evals = [(a.f(), a.f(), a.f(), a.int()) for _ in range(n)]
+            except Exception:
+                self.evals = None
 
     def default_params(self):
         """the per-method parameters (not part of the property's quantifier) are at their defaults"""
@@ -361,6 +398,44 @@ def same(a, b):
 # the property statement, evaluated on the implementation's answer
 
 EPS = 2.220446049250313e-16
+STPMIN = 10 * EPS          # lsearchk_t::stpmin() as the statement of get_initial_step_clamped has it
+
+
+def expected_initial_step(t0):
+    """lsearchk.cpp:52 as the property's model states it (Props/C07.lean: get_initial_step_clamped): non-finite -> 1, below stpmin() ->
+    stpmin(), above 1 -> 1"""
+    if t0 != t0 or abs(t0) == float("inf"):
+        return 1.0
+    return min(max(t0, STPMIN), 1.0)
+
+
+def preamble_violation(op, r):
+    """the preamble of lsearchk_t::get re-evaluated from the logged evaluations: first trial at the clamped step; x0.3 while the state is
+    invalid; x3 while |f - f0| < epsilon1 (the loops' budgets are not re-checked here: the model does, by correspondence)"""
+    if r.n == 0:
+        return f"[preamble-no-evaluation] {op.method}: descent direction but no evaluation made"
+    t1 = expected_initial_step(op.t0)
+    if not vlib.close(r.ts[0], t1, 1e-12):
+        return (f"[initial-step-not-clamped] {op.method}: first trial step {r.ts[0]!r}, expected {t1!r} for the given t0 = {op.t0!r}")
+    ev = op.evals
+    if not ev or len(ev) != r.n:
+        return None
+    k = 0
+    while k < min(op.maxit, r.n) and not ev[k][3]:
+        if k + 1 < r.n and k + 1 < op.maxit and not vlib.close(r.ts[k + 1], r.ts[k] * 0.3, 1e-12):
+            return f"[shrink-step-not-0.3x] {op.method}: invalid state at t = {r.ts[k]!r} followed by a trial at {r.ts[k + 1]!r}"
+        k += 1
+    if k >= r.n or not ev[k][3]:
+        return None
+    j = 0
+    while j < op.maxit and k + 1 < r.n and abs(ev[k][1] - r.f0) < op.eps1:
+        if not vlib.close(r.ts[k + 1], r.ts[k] * 3.0, 1e-12):
+            return (f"[grow-step-not-3x] {op.method}: |f - f0| = {abs(ev[k][1] - r.f0)!r} < epsilon1 at t = {r.ts[k]!r} followed by a "
+                    f"trial at {r.ts[k + 1]!r}")
+        if not ev[k + 1][3]:
+            break
+        k += 1; j += 1
+    return None
 
 
 def oracle(aug, res):
@@ -381,6 +456,9 @@ def oracle(aug, res):
         if not same(r.t, op.t0):
             return f"[nondescent-step-changed] {m}: returned step {r.t!r} != given {op.t0!r}"
         return None
+    pv = preamble_violation(op, r)
+    if pv:
+        return pv
     if not r.succ:
         # the success clause is claimed for t0 in [1e-3, 1e3] or non-finite (the statement's quantifier); the boundary-biased initial
         # steps outside it (0, negative, 1e-300, 2.3e-15, 1e300: clamped to stpmin() or 1) are generated for the other clauses only
@@ -428,12 +506,20 @@ def oracle(aug, res):
             why.append(f"neither Wolfe nor approximate Wolfe: f={f!r} f0={f0!r} g.d={dg!r} g0.d={dg0!r} eps_k={epsk!r}")
     if why:
         cls = "on-convex-quadratic" if m == "cgdescent" else "advertised-condition"
-        if m == "cgdescent" and r.n <= op.maxit:
-            # the known finding is CG_DESCENT's 'bracketing failed' exit of interval_t::done, which needs the shared budget
-            # params.m_max_iterations exhausted, i.e. more than max_iterations evaluations (Props/C07.lean: cgdescent_success_cases,
-            # cgdescent_success_within_budget; the only other way, an interval [a, b] not wider than stpmin(), has never been
-            # observed); a success without Wolfe / approximate Wolfe within the budget is a new violation
-            cls += "/within-budget"
+        if m == "cgdescent":
+            # the known finding is CG_DESCENT's 'bracketing failed' exit of interval_t::done. Props/C07.lean: cgdescent_success_cases
+            # says EXACTLY when a success without Wolfe / approximate Wolfe is possible: the upper end b of the interval is an evaluated
+            # trial point with a NEGATIVE slope, AND (more than max_iterations evaluations were made OR the interval [a, b] - its ends are
+            # evaluated steps or 0 - is not wider than stpmin()). Anything else is a different violation and gets its own key:
+            #   /within-budget      at most max_iterations evaluations and no two evaluated steps (or 0) within stpmin() of each other
+            #   /no-negative-slope  no evaluated trial point with a negative slope at all: it cannot be the 'bracketing failed' exit
+            steps = sorted([0.0] + [e[0] for e in (op.evals or [])])
+            narrow = any(b - a <= STPMIN for a, b in zip(steps, steps[1:])) if op.evals else False
+            negslope = any(e[2] < 0.0 for e in op.evals) if op.evals else True
+            if r.n <= op.maxit and not narrow:
+                cls += "/within-budget"
+            elif not negslope:
+                cls += "/no-negative-slope"
         return (f"[{m}-success-violates-{cls}] t={t!r} c1={c1!r} c2={c2!r} max_iterations={op.maxit} "
                 f"({r.n} evaluations): " + "; ".join(why))
     return None
